@@ -155,12 +155,21 @@ class Corpus:
 
 
 def check_runs(chk, results, monitor):
-    """Common sanity: every process ended with an `end` event and exit code 0."""
+    """Every process must end with an `end` event and exit code 0. A process that died (signal, abort, stack overflow)
+    while examining a type is a violation attributed to that type; anything else is inconclusive."""
     ok = True
     for r in results:
         ends = [e for e in r["events"] if e.get("ev") == "end"]
-        if r["rc"] != 0 or not ends or not ends[-1].get("ok"):
-            ok = False
+        if r["rc"] == 0 and ends and ends[-1].get("ok"):
+            continue
+        ok = False
+        starts = [e for e in r["events"] if e.get("ev") == "start"]
+        died = isinstance(r["rc"], int) and r["rc"] != 0 and not ends
+        if died and starts:
+            last = starts[-1]
+            chk.violation(f"{chk.pid}|crash|{monitor}", f"{os.path.basename(r['bin'])} died (rc={r['rc']}) while examining {last.get('rust')} "
+                          f"in monitor {monitor}: {r['output'][-300:]}", {"type": last, "rc": r["rc"], "output": r["output"][-1000:]}, tags=["crash"])
+        else:
             detail = ends[-1].get("harness_panic") if ends else r["output"][-500:]
             chk.note_inconclusive(f"{os.path.basename(r['bin'])} {monitor}: rc={r['rc']} {detail}")
     return ok
